@@ -1,7 +1,8 @@
 (* Extraction of the executable models.  ExtrOcamlBasic only; no Extract Constant. *)
 From Coq Require Extraction.
 From Coq Require Import ExtrOcamlBasic.
-From Lou Require Model.Hyph Model.HyphSpec.
+From Lou Require Model.Hyph Model.HyphSpec Model.Log.
 Extraction Language OCaml.
 Extraction "../ocaml/model.ml"
-  Hyph.build Hyph.walk Hyph.hyphenate Hyph.split_token HyphSpec.Hyph_spec.
+  Hyph.build Hyph.walk Hyph.hyphenate Hyph.split_token HyphSpec.Hyph_spec
+  Log.lrun Log.linit.
